@@ -112,7 +112,14 @@ int RePair::extractStringAndCompareRP(uint id, uchar *str, uint strLen) {
   uint l = 0, pos = 0, next;
   int cmp = 0;
 
+  size_t limit = Cls->getNumberOfElements();
+
   while (pos <= strLen) {
+    // A pattern holding the closing symbol can run past the last string
+    if ((id + l) >= limit) {
+      cmp = -1;
+      break;
+    }
     next = Cls->getField(id + l);
 
     if (next >= terminals) {
